@@ -5,6 +5,7 @@ package main
 import (
 	"fmt"
 	"go/ast"
+	"go/token"
 	"strings"
 )
 
@@ -375,6 +376,66 @@ func extractCacheLocks(x *ExtractCtx) error {
 	fmt.Fprintf(w, "/-- LFU `TrackSetAndReturnEvictedKeys`: the condition of the loop around `heap.Pop`, and how many\n`heap.Remove` calls precede it (removing a previous entry of the key). -/\n")
 	fmt.Fprintf(w, "def lfuLoopCond : String := %s\n", LeanStr(loopCond))
 	fmt.Fprintf(w, "def lfuRemovesBeforeLoop : Nat := %d\n\n", removesBefore)
+	// ---- cache part store: does the cache operation of DeletePart / PutPart precede the inner store's?
+	pf, err := x.ParseFile("internal/storage/metadatapart/partstore/cache/cache.go")
+	if err != nil {
+		return err
+	}
+	order := func(method, innerCall, cacheCall string) (bool, error) {
+		fd := FindFunc(pf, "cachePartStore", method)
+		if fd == nil {
+			return false, fmt.Errorf("cachePartStore.%s not found", method)
+		}
+		x.Note("cachePartStore."+method, fd)
+		innerPos := token.NoPos
+		var cachePos []token.Pos
+		var walk func(n ast.Node, inLit bool)
+		walk = func(n ast.Node, inLit bool) {
+			ast.Inspect(n, func(nn ast.Node) bool {
+				switch t := nn.(type) {
+				case *ast.FuncLit:
+					if !inLit {
+						walk(t.Body, true)
+						return false
+					}
+				case *ast.CallExpr:
+					fn := x.Src(t.Fun)
+					if fn == "ps.innerPartStore."+innerCall && !inLit {
+						if innerPos == token.NoPos || t.Pos() < innerPos {
+							innerPos = t.Pos() // the earliest inner call in source order
+						}
+					}
+					// cache calls inside a func literal are the after-commit hook: they run after the inner call by construction
+					if fn == "ps.cache."+cacheCall && !inLit {
+						cachePos = append(cachePos, t.Pos())
+					}
+				}
+				return true
+			})
+		}
+		walk(fd.Body, false)
+		if innerPos == token.NoPos || len(cachePos) == 0 {
+			return false, fmt.Errorf("cachePartStore.%s: expected an inner %s call and at least one direct cache.%s", method, innerCall, cacheCall)
+		}
+		first := false
+		for _, p := range cachePos {
+			if p < innerPos {
+				first = true
+			}
+		}
+		return first, nil
+	}
+	delFirst, err := order("DeletePart", "DeletePart", "Remove")
+	if err != nil {
+		return err
+	}
+	putFirst, err := order("PutPart", "PutPart", "Set")
+	if err != nil {
+		return err
+	}
+	fmt.Fprintf(w, "/-- cache part store (path without a transaction): is the cache entry removed / written BEFORE the inner\nstore's DeletePart / PutPart is called? -/\n")
+	fmt.Fprintf(w, "def partStoreDeleteCacheFirst : Bool := %v\n", delFirst)
+	fmt.Fprintf(w, "def partStorePutCacheFirst : Bool := %v\n\n", putFirst)
 	fmt.Fprintf(w, "end Pithos.Gen.CacheLocks\n")
 	return nil
 }
